@@ -164,6 +164,20 @@ pub fn child_main() -> ! {
                 }
                 outbuf.clear();
             }
+            Op::Stderr(n) => {
+                let line = b"error: simulated diagnostic\n";
+                let bytes: Vec<u8> = line.iter().cycle().take(n).copied().collect();
+                let mut off = 0;
+                while off < bytes.len() {
+                    let r = unsafe {
+                        libc::write(2, bytes[off..].as_ptr() as *const libc::c_void, bytes.len() - off)
+                    };
+                    if r <= 0 {
+                        break;
+                    }
+                    off += r as usize;
+                }
+            }
             Op::CloseStdin => {
                 unsafe { libc::close(0) };
                 stdin_open = false;
@@ -192,6 +206,7 @@ struct RealChild {
     child: Mutex<std::process::Child>,
     stdin: Mutex<Option<std::process::ChildStdin>>,
     stdout: Mutex<Option<std::process::ChildStdout>>,
+    stderr: Mutex<Option<std::process::ChildStderr>>,
     pid: u32,
 }
 
@@ -211,14 +226,34 @@ impl ChildIo for RealChild {
                 Some(s) => s.read(buf),
                 None => Ok(0),
             },
-            _ => Ok(0),
+            Fd::Stderr => match self.stderr.lock().unwrap().as_mut() {
+                Some(s) => s.read(buf),
+                None => Ok(0),
+            },
+            Fd::Stdin => Ok(0),
         }
+    }
+    fn read2(&self, stdout: &mut Vec<u8>, stderr: &mut Vec<u8>) -> std::io::Result<()> {
+        // two real pipes: drain stderr on a helper thread like the seam's passthrough does
+        let err = self.stderr.lock().unwrap().take();
+        let reader = std::thread::spawn(move || {
+            let mut bytes = Vec::new();
+            if let Some(mut e) = err {
+                let _ = e.read_to_end(&mut bytes);
+            }
+            bytes
+        });
+        if let Some(out) = self.stdout.lock().unwrap().as_mut() {
+            out.read_to_end(stdout)?;
+        }
+        *stderr = reader.join().unwrap_or_default();
+        Ok(())
     }
     fn close(&self, fd: Fd) {
         match fd {
             Fd::Stdin => drop(self.stdin.lock().unwrap().take()),
             Fd::Stdout => drop(self.stdout.lock().unwrap().take()),
-            Fd::Stderr => {}
+            Fd::Stderr => drop(self.stderr.lock().unwrap().take()),
         }
     }
     fn wait(&self) -> std::io::Result<ExitStatus> {
@@ -294,10 +329,12 @@ impl Backend for KernelBackend {
         }
         let stdin = child.stdin.take();
         let stdout = child.stdout.take();
+        let stderr = child.stderr.take();
         Some(Ok(Arc::new(RealChild {
             child: Mutex::new(child),
             stdin: Mutex::new(stdin),
             stdout: Mutex::new(stdout),
+            stderr: Mutex::new(stderr),
             pid,
         })))
     }
@@ -383,6 +420,9 @@ pub fn scenarios(tier: Tier) -> Vec<Scenario> {
         ("sigsegv_at_once", SpawnPlan::Ok, vec![Op::Kill(libc::SIGSEGV)]),
         ("sigterm_after_reading", SpawnPlan::Ok, vec![Op::ReadToEof, Op::Kill(libc::SIGTERM)]),
         ("sigkill_mid_output", SpawnPlan::Ok, vec![Op::ReadToEof, Op::EmitRef(300), Op::Flush, Op::Kill(libc::SIGKILL)]),
+        ("chatty_exit1_without_reading", SpawnPlan::Ok, vec![Op::Stderr(300_000), Op::Exit(1)]),
+        ("chatty_exit1_before_reading", SpawnPlan::Ok, vec![Op::Stderr(300_000), Op::ReadToEof, Op::Exit(1)]),
+        ("chatty_normal", SpawnPlan::Ok, vec![Op::ReadToEof, Op::Stderr(70_000), Op::Format, Op::Flush, Op::ExitAuto]),
         ("empty_after_reading", SpawnPlan::Ok, vec![Op::ReadToEof, Op::Exit(0)]),
         ("empty_without_reading", SpawnPlan::Ok, vec![Op::Exit(0)]),
         ("empty_read10", SpawnPlan::Ok, vec![Op::Read(10), Op::Exit(0)]),
